@@ -2,6 +2,8 @@ import Cfdm.Driver.Parse
 import Cfdm.Model.NcNames
 import Cfdm.Model.Globals
 import Cfdm.Model.NcFile
+import Cfdm.Model.NcField
+import Cfdm.Model.NcStore
 import Cfdm.Generated.FileContents
 /-
 Line-protocol driver for C08.
@@ -21,6 +23,16 @@ code points (`e` = the empty string).  Attribute names and netCDF names of the `
       → ok dims=[…] vars=[name|dims|refs;…] ext=[…]  |  refused:<index of the first refused step>
   C08.wf    dims=[n:size,…] vars=[name|d,d|D or -|kind>target,…;…] ext=[a,…]
       → ok | bad:<rule>
+  C08.dtype fmt=NETCDF4|NETCDF4_CLASSIC|NETCDF3_CLASSIC|NETCDF3_64BIT_OFFSET|NETCDF3_64BIT_DATA string=0|1
+            map=[i8>i4,f8>f4,…] vars=[name:<dtype or ->:<dtype of the fill property or ->,…]   (dtype = i1…u8,f4,f8,S<n>,U<n>)
+      → name=<str or kind+size>/<dtype of _FillValue or ->/<extra dimensions>;…
+  C08.field scalar=0|1 coordinates=0|1 fields=[F;F;…]
+            F    = <name or -> | axis,axis,… | key,key,… (data axes) | cons,cons,… | cm,cm,…
+            axis = key:size:<ncdim or ->:U or L:<- or dckey/content/<name or ->>
+            cons = key:aux|measure|fieldanc:content:<name or ->:<measure or ->:ax+ax+…
+            cm   = ax+ax+…
+      → ok unlim=[d,…] dims=[…] vars=[…] ext=[] info=[ncvar>d,d>c,c>t+t,t;…]  |  refused
+        followed by ` old=<the same for the code as it stands>` when that differs
 -/
 namespace Cfdm.Driver.C08
 open Cfdm.Driver
@@ -260,12 +272,138 @@ def runEmit (kv : KV) : String :=
     | .error i => s!"refused:{i}"
     | .ok F => (if wfCore F then "ok " else "not-wf ") ++ dumpFile F
 
+
+/-! ### a whole write of fields (per-field naming maps) -/
+def optName (s : String) : Option String := if s == "-" then none else some s
+
+open Cfdm.NcField in
+def parseCType : String → Option CType
+  | "aux" => some .aux
+  | "measure" => some .measure
+  | "fieldanc" => some .fieldAnc
+  | _ => none
+
+open Cfdm.NcField in
+def parseAxis (t : String) : Option Axis :=
+  match t.splitOn ":" with
+  | [key, size, ncdim, u, dc] => do
+    if key.isEmpty then none
+    let size ← size.toNat?
+    let unl ← if u == "U" then some true else if u == "L" then some false else none
+    let dimCoord ← (if dc == "-" then some none else
+      match dc.splitOn "/" with
+      | [k, c, n] => c.toNat?.map (fun c => some ({ key := k, content := c, name := optName n } : DimC))
+      | _ => none)
+    some { key := key, size := size, ncdim := optName ncdim, unlimited := unl, dimCoord := dimCoord }
+  | _ => none
+
+open Cfdm.NcField in
+def parseCons (t : String) : Option Cons :=
+  match t.splitOn ":" with
+  | [key, ty, c, n, m, axes] => do
+    if key.isEmpty then none
+    let ty ← parseCType ty
+    let c ← c.toNat?
+    some { key := key, ctype := ty, content := c, name := optName n, measure := (optName m).getD "", axes := splitOrEmpty axes "+" }
+  | _ => none
+
+open Cfdm.NcField in
+def parseAField (t : String) : Option AField :=
+  match t.splitOn "|" with
+  | [name, axes, da, cons, cms] => do
+    let axes ← (splitOrEmpty axes ",").mapM parseAxis
+    let cons ← (splitOrEmpty cons ",").mapM parseCons
+    some { name := optName name, axes := axes, dataAxes := splitOrEmpty da ",", cons := cons,
+           cellMethods := (splitOrEmpty cms ",").map (fun m => splitOrEmpty m "+") }
+  | _ => none
+
+open Cfdm.NcField in
+def showInfo (i : Info) : String :=
+  i.ncvar ++ ">" ++ String.intercalate "," i.dims ++ ">" ++ String.intercalate "," (sortStrings i.coords) ++ ">"
+    ++ String.intercalate "," (i.cmTokens.map (String.intercalate "+"))
+
+open Cfdm.NcField in
+def showWrite : Option (List Info × WS) → String
+  | none => "refused"
+  | some (is, ws) =>
+    s!"ok unlim=[{String.intercalate "," (sortStrings ws.unlimited)}] {dumpFile ws.w.file} info=[{String.intercalate ";" (is.map showInfo)}]"
+
+open Cfdm.NcField in
+def runField (kv : KV) : String :=
+  match (do
+    let scalar ← parseBool kv "scalar"
+    let coordinates ← parseBool kv "coordinates"
+    let fields ← (← splitList (← kv.get? "fields") ";").mapM parseAField
+    some (({ scalar := scalar, coordinates := coordinates } : Opts), fields)) with
+  | none => "bad-op"
+  | some (o, fields) =>
+    if fields.isEmpty then "bad-op" else
+    let new := showWrite (writeFields true o {} fields)
+    let old := showWrite (writeFields false o {} fields)
+    if new == old then new else new ++ " old=" ++ old
+
+/-! ### storage -/
+open Cfdm.NcStore in
+def parseDType (t : String) : Option DType :=
+  match t.toList with
+  | c :: rest =>
+    (String.ofList rest).toNat?.bind (fun n =>
+      match c with
+      | 'i' => some ⟨.int, n⟩
+      | 'u' => some ⟨.uint, n⟩
+      | 'f' => some ⟨.float, n⟩
+      | 'S' => some ⟨.bytes, n⟩
+      | 'U' => some ⟨.unicode, n⟩
+      | _ => none)
+  | [] => none
+
+open Cfdm.NcStore in
+def showKindC : Kind → String
+  | .int => "i" | .uint => "u" | .float => "f" | .bytes => "S" | .unicode => "U"
+
+open Cfdm.NcStore in
+def parseFmt : String → Option Fmt
+  | "NETCDF4" => some .netcdf4
+  | "NETCDF4_CLASSIC" => some .netcdf4Classic
+  | "NETCDF3_CLASSIC" => some .netcdf3Classic
+  | "NETCDF3_64BIT_OFFSET" => some .netcdf364Offset
+  | "NETCDF3_64BIT_DATA" => some .netcdf364Data
+  | _ => none
+
+open Cfdm.NcStore in
+def runDtype (kv : KV) : String :=
+  match (do
+    let fmt ← parseFmt (← kv.get? "fmt")
+    let string ← parseBool kv "string"
+    let m ← (← splitList (← kv.get? "map") ",").mapM (fun (t : String) => match t.splitOn ">" with
+      | [a, b] => do some ((← parseDType a), (← parseDType b))
+      | _ => none)
+    let vars ← (← splitList (← kv.get? "vars") ",").mapM (fun (t : String) => match t.splitOn ":" with
+      | [n, d, fl] => do
+        let d ← if d == "-" then some none else (parseDType d).map some
+        let fl ← if fl == "-" then some none else (parseDType fl).map some
+        some (n, d, fl)
+      | _ => none)
+    some (fmt, string, m, vars)) with
+  | none => "bad-op"
+  | some (fmt, string, m, vars) =>
+    String.intercalate ";" (vars.map (fun (n, d, fl) =>
+      let ty := match datatype fmt string m d with
+        | .vlenString => "str"
+        | .code k sz => showKindC k ++ toString sz
+      let fill := match fl with
+        | none => "-"
+        | some g => let t := fillDType m d g; showKindC t.kind ++ toString t.size
+      n ++ "=" ++ ty ++ "/" ++ fill ++ "/" ++ toString (extraDims fmt string m d)))
+
 def run (sub : String) (kv : KV) : String :=
   match sub with
   | "names" => runNames kv
   | "emit" => runEmit kv
   | "glob" => runGlob kv
   | "wf" => runWf kv
+  | "field" => runField kv
+  | "dtype" => runDtype kv
   | _ => "bad-op"
 
 end Cfdm.Driver.C08
